@@ -34,7 +34,7 @@ from .classes import VariantDict  # noqa
 # Array: stated separately for collecting arrays (proved) and for discard=True (known finding: the empty list that parsing hands back
 # is refused by build whenever count > 0)
 PROGRAMS.append(dict(program='canonical_list', cls='Array', tags=('C02',), variant=VariantDict(discard=False)))
-# PROGRAMS.append(dict(program='canonical_list', cls='Sequence', tags=('C02',)))   # in progress
+PROGRAMS.append(dict(program='canonical_list', cls='Sequence', tags=('C02',)))
 PROGRAMS.append(dict(program='canonical_accepts', cls='Array', tags=('C02',), variant=VariantDict(discard=True)))
 for _u in (1, 2):
     PROGRAMS.append(dict(program='canonical', cls='NullTerminated', tags=('C02',), variant=VariantDict(term_len=_u)))
@@ -227,4 +227,6 @@ def _flags_domain(eng, st):
 
 DOMAIN['Enum'] = DOMAIN['Mapping'] = _labels_domain
 DOMAIN['FlagsEnum'] = _flags_domain
+HYPOTHESES += ['C02, Array and Sequence - added hypothesis that is not an instance of a proved lemma: for one fresh index constant wit, (0 <= wit < K => v[wit] == w[wit]) => forall j. 0 <= j < K => v[j] == w[j]; conservative (Skolem form of a valid formula: some value of wit satisfies it whatever the lists are, and wit occurs nowhere else), see DESIGN 9.4']
+HYPOTHESES += ['C02, Sequence only - no member ends a parse early (StopIf), neither on the accepted input nor on the rebuilt bytes (assumed for both, not derived for the second), and no member refuses to build with StopFieldError; a parse that was ended early returns a shorter list, which builds since fix f8c1dc3 but is outside the lemma']
 HYPOTHESES += ['C02 / C13, label tables only - the encode and decode tables are the ones the constructor builds from one mapping (constructor contract): a label that decoding can yield is a non-integer, hashable key of the encode table and is sent back to the value it was decoded from']
